@@ -24,7 +24,11 @@ def setup_engine(seed=0):
     import stone.backends.python_rsrc.stone_serializers as ss
     E.register_singleton(bb.NOT_SET, Val.VNotSet)
     E.register_singleton(bb.NO_DEFAULT, Val.VNoDefault)
-    for mod in (bv, bb, ss):
+    import stone.ir.data_types as ir_dt
+    import stone.ir.api as ir_api
+    import stone.frontend.ast as st_ast
+    import stone.frontend.exception as st_exc
+    for mod in (bv, bb, ss, ir_dt, ir_api, st_ast, st_exc):
         for name in sorted(vars(mod)):
             obj = vars(mod)[name]
             if isinstance(obj, type) and obj.__module__ == mod.__name__:
@@ -263,6 +267,27 @@ def decode_term(E, p, model, t, depth=0):
 # ----------------------------------------------------------------------------
 
 
+def assume_not_known_cases(E, p, con, argsv):
+    """A listed known finding: the obligation is proved outside its case (so
+    any other way of violating the property still fails it)."""
+    import ast as _ast
+    for kf in getattr(con, '_known_cases', []):
+        expr = _ast.parse(kf['case'], mode='eval').body
+        g = dict(sys.modules[con.__module__].__dict__)
+        fr = I.Frame(None, dict(argsv), g, None, None, 'known-case')
+        old_fc = E.fail_conds
+        E.fail_conds = None
+        E.merge += 1
+        try:
+            c = E.eval(expr, fr)
+        finally:
+            E.merge -= 1
+            E.fail_conds = old_fc
+        p.assume(z3.Not(I._zb(E.truth(c))))
+        if p.check() == z3.unsat:
+            raise I.PathAbort()
+
+
 class Verifier:
     def __init__(self, tier='quick', seed=0):
         self.tier = tier
@@ -337,20 +362,7 @@ class Verifier:
                 p.assume(I._zb(b))
                 if p.check() == z3.unsat:
                     raise I.PathAbort()
-            for kf in getattr(con, '_known_cases', []):
-                # a listed known finding: the obligation is proved outside its case
-                import ast as _ast
-                expr = _ast.parse(kf['case'], mode='eval').body
-                g = dict(sys.modules[con.__module__].__dict__)
-                fr = I.Frame(None, dict(argsv), g, None, None, 'known-case')
-                E.merge += 1
-                try:
-                    c = E.eval(expr, fr)
-                finally:
-                    E.merge -= 1
-                p.assume(z3.Not(I._zb(E.truth(c))))
-                if p.check() == z3.unsat:
-                    raise I.PathAbort()
+            assume_not_known_cases(E, p, con, argsv)
             p.heap0 = dict(p.heap)
             pos = [argsv[n] for n in params if n in argsv]
             return E.inline(fn, pos, {}, owner)
@@ -542,3 +554,52 @@ def install_contracts(E, skip_target=None):
         E.contracts[fn] = ContractAdapter(con, fn)
         if con.opts.get('virtual'):
             E.virtual[(owner, fn.__name__)] = fn
+
+
+def verify_lemma(V, E, lem):
+    """Prove ``hypothesis => statement`` for all parameters."""
+    rep = FunctionReport(lem.target)
+    t0 = time.time()
+    rep.file = inspect.getsourcefile(lem)
+    E.inlined = set()
+    E.assumptions = set()
+    store = {}
+    n = [0]
+
+    def run(p):
+        argsv = {}
+        for name, kind in lem.params.items():
+            argsv[name] = make_param(E, p, name, kind)
+        store['cur'] = argsv
+        hyp = lem.__dict__.get('hypothesis')
+        if hyp is not None:
+            r = eval_spec(E, hyp, list(argsv.values()))
+            p.assume(I._zb(E.truth(r)))
+            if p.check() == z3.unsat:
+                raise I.PathAbort()
+        assume_not_known_cases(E, p, lem, argsv)
+        p.heap0 = dict(p.heap)
+        st = eval_spec(E, lem.__dict__['statement'], list(argsv.values()))
+        return st
+
+    def on_path(p, outcome):
+        n[0] += 1
+        kind, v = outcome
+        if kind != 'return':
+            raise I.Unsupported('lemma evaluation raised %s' % v.cls.__name__)
+        goal = I._zb(E.truth(v))
+        ob = V.prove(E, p, '%s#case%d' % (lem.target, n[0]), goal, 'lemma', rep, store['cur'], lem)
+        rep.failed.extend([ob] if ob.status != 'discharged' else [])
+
+    E.on_require = lambda goal, name: None
+    install_contracts(E)
+    try:
+        rep.paths = E.explore(run, on_path)
+    except I.Unsupported as e:
+        rep.unsupported = str(e)
+    except z3.Z3Exception as e:
+        rep.unsupported = 'z3 error: %s' % e
+    rep.inlined = sorted(E.inlined)
+    rep.assumptions = sorted(E.assumptions)
+    rep.seconds = time.time() - t0
+    return rep
